@@ -3,6 +3,10 @@ package c01
 
 import (
 	"context"
+
+	schemaClient "github.com/sdcio/data-server/pkg/datastore/clients/schema"
+	"github.com/sdcio/data-server/pkg/config"
+	"github.com/sdcio/data-server/pkg/datastore/target"
 	"fmt"
 	"os"
 	"strings"
@@ -24,7 +28,11 @@ var prop = vlib.Prop[*vlib.HistCase]{
 		"oracle = reference merge model compared with the recording device after every successful step (A winner value, B stale paths gone, C unmanaged config untouched); " +
 		"non-trivial = some step changes the winner of a path defined by >=2 live owners or removes/re-prioritises/shrinks an owner that shadows another; distinct = distinct case JSON",
 	Gen: func(t *rapid.T) *vlib.HistCase {
-		return vlib.GenHistCase(t, vlib.HistGenOpts{Universe: universe(), MinSteps: 1, MaxSteps: 10, WithInit: true, AllowOrphan: true})
+		c := vlib.GenHistCase(t, vlib.HistGenOpts{Universe: universe(), MinSteps: 1, MaxSteps: 10, WithInit: true, AllowOrphan: true})
+		if rapid.IntRange(0, 5).Draw(t, "gnmi-device") == 2 {
+			c.GNMI = rapid.SampledFrom([]string{"proto", "json", "json_ietf"}).Draw(t, "gnmi-encoding")
+		}
+		return c
 	},
 	Exec: func(c *vlib.HistCase) (bool, []string, *vlib.Failure) {
 		return Exec(c)
@@ -35,13 +43,35 @@ var prop = vlib.Prop[*vlib.HistCase]{
 func Exec(c *vlib.HistCase) (nontrivial bool, labels []string, fail *vlib.Failure) {
 	ctx := context.Background()
 	env := vlib.MustEnv()
-	h, err := vlib.NewHistEnv(ctx, env, c, vlib.HistEnvOpts{})
+	var tee *vlib.GNMITee
+	opts := vlib.HistEnvOpts{}
+	if c.GNMI != "" {
+		// the real gnmiTarget (target.New with a bufconn dialer) in front of an in-process gNMI device
+		opts.WrapTarget = func(dev *vlib.Device) target.Target {
+			gdev := vlib.NewGNMIDevice(dev.Snapshot())
+			scb := schemaClient.NewSchemaClientBound(vlib.SchemaRef(), env.SchemaClient)
+			real, err := target.New(ctx, "c01", &config.SBI{Type: "gnmi", Address: "bufnet", Port: 1, GnmiOptions: &config.SBIGnmiOptions{Encoding: c.GNMI}}, scb, gdev.DialOpts()...)
+			if err != nil {
+				fmt.Fprintf(os.Stderr, "HARNESS-ERROR gnmi target: %v\n", err)
+				os.Exit(2)
+			}
+			tee = &vlib.GNMITee{Dev: dev, Real: real, GDev: gdev}
+			return tee
+		}
+	}
+	h, err := vlib.NewHistEnv(ctx, env, c, opts)
 	if err != nil {
 		fmt.Fprintf(os.Stderr, "HARNESS-ERROR %v\n", err)
 		os.Exit(2)
 	}
 	defer h.DS.Stop()
+	if tee != nil {
+		defer tee.GDev.Stop()
+	}
 	lab := map[string]bool{}
+	if c.GNMI != "" {
+		lab["gnmi-device-"+c.GNMI] = true
+	}
 	if len(c.Initial) > 0 {
 		lab["initial-running"] = true
 	}
@@ -66,6 +96,11 @@ func Exec(c *vlib.HistCase) (nontrivial bool, labels []string, fail *vlib.Failur
 		if f := vlib.CheckConvergence(h, fmt.Sprintf("step %d (%s)", i, describe(res)), res); f != nil {
 			return nontrivial, keys(lab), f
 		}
+		if tee != nil {
+			if f := checkGNMI(tee, c.GNMI, fmt.Sprintf("step %d (%s)", i, describe(res)), lab); f != nil {
+				return nontrivial, keys(lab), f
+			}
+		}
 	}
 	for _, p := range c.Palette {
 		if strings.ContainsAny(p, "/_:=[] .*") {
@@ -73,6 +108,57 @@ func Exec(c *vlib.HistCase) (nontrivial bool, labels []string, fail *vlib.Failur
 		}
 	}
 	return nontrivial, keys(lab), nil
+}
+
+// checkGNMI: what the real gnmiTarget delivered to the gNMI device (decoded by the harness) leaves that device with
+// the same configuration as the recording device, which applied the proto rendering of the same tree.
+func checkGNMI(tee *vlib.GNMITee, enc, where string, lab map[string]bool) *vlib.Failure {
+	if errs := tee.TakeErrs(); len(errs) > 0 {
+		return vlib.Failf("C01:gnmi-target-set-error:"+enc, "%s: gnmiTarget.Set failed: %v", where, errs)
+	}
+	want := vlib.NormPresence(tee.Dev.Snapshot())
+	got := vlib.NormPresence(tee.GDev.Snapshot())
+	if rec := tee.GDev.LastRecord(); rec != nil && len(rec.Anomalies) > 0 {
+		onlyEmpty := true
+		for _, a := range rec.Anomalies {
+			if !strings.Contains(a, "without a value") {
+				onlyEmpty = false
+			}
+		}
+		if !onlyEmpty {
+			return vlib.Failf("C01:gnmi-payload-anomaly:"+enc, "%s: the SetRequest the gNMI device received is malformed: %s", where, strings.Join(rec.Anomalies, "; "))
+		}
+		// proto encoding has no typed value for a presence container / type empty (recorded finding of C12):
+		// such updates arrive without a value; the affected paths are left out of the comparison
+		lab["gnmi-update-without-value"] = true
+		for k := range want {
+			if n := vlib.MustCanon(k).Node(); n != nil && (n.Kind == vlib.KContainer || n.Type == "empty") {
+				delete(want, k)
+				delete(got, k)
+			}
+		}
+		want, got = vlib.NormPresence(want), vlib.NormPresence(got)
+	}
+	// presence containers are left out for every encoding: a JSON document cannot tell "container set explicitly and
+	// through a child" from "through a child only", the two devices then differ in bookkeeping, not in content
+	// (how presence containers are rendered in JSON vs proto is judged by C10)
+	{
+		for k := range want {
+			if n := vlib.MustCanon(k).Node(); n != nil && (n.Kind == vlib.KContainer || n.Type == "empty") {
+				delete(want, k)
+				delete(got, k)
+			}
+		}
+		for k := range got {
+			if n := vlib.MustCanon(k).Node(); n != nil && (n.Kind == vlib.KContainer || n.Type == "empty") {
+				delete(got, k)
+			}
+		}
+	}
+	if d := got.Diff(want); len(d) > 0 {
+		return vlib.Failf("C01:gnmi-device-differs:"+enc, "%s: the device behind the real gnmiTarget (encoding %s) differs from the recording device (gNMI device vs recording device):\n  %s\nlast SetRequest decoded: %s", where, enc, strings.Join(d, "\n  "), vlib.JSON(tee.GDev.LastRecord()))
+	}
+	return nil
 }
 
 func describe(r *vlib.StepResult) string {
